@@ -1,9 +1,11 @@
 (* C19: shutdown timeline model.
-   Line: shutdown <wait_nonneg 0/1> <W> <G> | <arrivals...> | <service times...> [| <signal instants...> | <signal kinds...> [| <sync 0/1...> [| <request kinds...>]]]
+   Line: shutdown <wait_nonneg 0/1> <W> <G> | <arrivals...> | <service times...> [| <signal instants...> | <signal kinds...> [| <sync 0/1...> [| <request kinds...> [| <tracing>]]]]
    (ns, relative to the first signal; the signal lists include the first signal; absent = one signal; sync = the completion
    of that request is synchronised to the process's close instant; request kinds = what the request makes the process do
    (0 proxied to the upstream, 1 login, 2 login after a key rotation at the provider, 3 session refresh, 4 logout): the model
-   does not look at them - a request is an arrival and a service time whatever its kind)
+   does not look at them - a request is an arrival and a service time whatever its kind; tracing = the deployment's
+   OpenTelemetry setting (0 off, 1 on with an unreachable collector, 2 on with a collector that never answers): the timeline
+   of pkg/server/server.go does not depend on it, the model does not look at it either)
    Output: 0 (refused at start-up) or 1 close deadline exit_time exit_code accepted... completes... robust *)
 open Model
 open Common
@@ -17,4 +19,5 @@ let () = register "shutdown" (fun toks ->
   | [[nn; w; g]; arr; svc; sat; skind] -> go nn w g arr svc sat skind []
   | [[nn; w; g]; arr; svc; sat; skind; sync] -> go nn w g arr svc sat skind sync
   | [[nn; w; g]; arr; svc; sat; skind; sync; _kinds] -> go nn w g arr svc sat skind sync
+  | [[nn; w; g]; arr; svc; sat; skind; sync; _kinds; _tracing] -> go nn w g arr svc sat skind sync
   | _ -> print_endline "?bad shutdown line")
